@@ -67,7 +67,7 @@ def run(R, pid, tier, seed):
         _guard(R, pid, "Archive::load", lambda: bisynclib.load_obligations(ctx, R, prover, pid))
         _guard(R, pid, "root_pair_hash", lambda: bisynclib.pair_hash_obligation(ctx, R, prover, pid))
         _guard(R, pid, "run_bisync", lambda: bisynclib.run_obligations(ctx, R, prover, pid, U))
-        _guard(R, pid, "apply", lambda: bisynclib.apply_obligations(ctx, R, prover, "C02"))
+        _guard(R, pid, "apply", lambda: bisynclib.apply_obligations(ctx, R, prover, "C07"))
     elif pid == "C08":
         R.assumptions += ["crash points are NOT explored. Decided: the ORDER of requests the crash argument rests on — copies go to a `.copia-tmp` sibling and only a rename puts "
                           "bytes at a path; the archive is written to `.tmp`, synced, the old one kept as `.bak`, then renamed, then the directory synced; run_bisync saves "
